@@ -96,3 +96,28 @@ Example C01_fail_and_done_starts_dependent :
   started_ids bad = [1; 0] /\ failed bad = [0] /\
   started_ids (scan_mid false (fun _ => false) two_chain 0 0 false st0) = [0].
 Proof. exact fail_and_done_starts_dependent. Qed.
+
+(* ---- a plan in which two steps produce one uuid (the plan the real planner makes for ONE polymorphic Link used by two concrete
+   pairs of feature groups: both JoinSteps report {own uuid, link uuid}, the consumers wait for the LINK uuid; exported by
+   harness/polylink.py, steps 5 and 8 both produce uuid 7).  The premise "produced sets pairwise disjoint" of C01_start_once fails,
+   wf_plan_auto rejects the plan, and there is a trace in which the second consumer (step 9) is started although its own join
+   (step 8) has not even begun: the link uuid was finished by the OTHER join.  Known finding
+   C01-polymorphic-link-join-steps-share-link-uuid (observed on the real code under the gating scheduler). *)
+Definition poly_plan : plan :=
+  [ {| sid := 0; skind := KFG; uuids := [1]; req := []; requested := false |};
+    {| sid := 1; skind := KFG; uuids := [2]; req := []; requested := false |};
+    {| sid := 2; skind := KFG; uuids := [3]; req := []; requested := false |};
+    {| sid := 3; skind := KFG; uuids := [4]; req := []; requested := false |};
+    {| sid := 4; skind := KTFS; uuids := [5]; req := [1; 2]; requested := false |};
+    {| sid := 5; skind := KJOIN; uuids := [6; 7]; req := [1; 2; 5]; requested := false |};
+    {| sid := 6; skind := KFG; uuids := [8]; req := [1; 2; 7]; requested := true |};
+    {| sid := 7; skind := KTFS; uuids := [9]; req := [3; 4]; requested := false |};
+    {| sid := 8; skind := KJOIN; uuids := [7; 10]; req := [3; 4; 9]; requested := false |};
+    {| sid := 9; skind := KFG; uuids := [11]; req := [3; 4; 7]; requested := true |} ].
+Definition poly_trace : list event :=
+  [EScan; EDone 0 true; EDone 1 true; EDone 2 true; EDone 3 true; EScan; EScan; EDone 4 true; EScan; EScan; EDone 5 true; EScan; EScan].
+Example C01_shared_uuid_starts_early_refuted :
+  let st := run false false (fun _ => false) poly_plan poly_trace in
+  nodupb (all_uuids poly_plan) = false /\ wf_plan_auto poly_plan = false /\
+  mem 9 (started_ids st) = true /\ mem 8 (started_ids st) = false /\ mem 8 (done st) = false /\ mem 7 (finished st) = true.
+Proof. vm_compute. repeat split; reflexivity. Qed.
